@@ -56,11 +56,59 @@ func resolveFree(v ssa.Value) ssa.Value {
 			return v
 		case *ssa.ChangeType:
 			v = x.X
+		case *ssa.Parameter:
+			// parameter of a function literal that is called where it is
+			// written (`go func(c chan T) {...}(ch)`): the argument
+			a := literalArg(x)
+			if a == nil {
+				return v
+			}
+			v = a
 		default:
 			return v
 		}
 	}
 	return v
+}
+
+// literalArg returns the argument bound to parameter p when p belongs to an
+// anonymous function whose only use is to be called (call / go / defer) in its
+// parent; nil otherwise.
+func literalArg(p *ssa.Parameter) ssa.Value {
+	fn := p.Parent()
+	par := fn.Parent()
+	if par == nil {
+		return nil
+	}
+	idx := -1
+	for i, q := range fn.Params {
+		if q == p {
+			idx = i
+		}
+	}
+	if idx < 0 {
+		return nil
+	}
+	var site ssa.CallInstruction
+	n := 0
+	for _, in := range instrs(par) {
+		c, ok := in.(ssa.CallInstruction)
+		if !ok {
+			continue
+		}
+		val := c.Common().Value
+		if mc, isMC := val.(*ssa.MakeClosure); isMC {
+			val = mc.Fn
+		}
+		if f, isF := val.(*ssa.Function); isF && f == fn {
+			site = c
+			n++
+		}
+	}
+	if n != 1 || idx >= len(site.Common().Args) {
+		return nil
+	}
+	return site.Common().Args[idx]
 }
 
 // closesChan reports whether executing fn (or a closure it calls / hands to a
